@@ -9,6 +9,8 @@ from ..rules import fmt_trace
 ID = "C15"
 ANCHORS = 'utils.one_hot_encode,utils._fast_one_hot_encode,utils.characters,utils.reverse_complement,utils.chunk,utils.unchunk'.split(",")
 MIN_INSTANCES = 12
+# rule families whose findings in this module are derived by an engine (not by comparing spellings): exempt from the rewrite gate
+SEMANTIC_RULES = {"R-SLICE0", "R-LEN"}
 EXPLANATION = (
     "R-TABLE (one_hot_encode): the 256-entry byte table is filled with the 'illegal' sentinel by default, alphabet bytes with "
     "their index, ignore bytes with the 'ignore' sentinel, and the numba reader handles exactly {ignore: skip, illegal: raise, "
